@@ -369,6 +369,8 @@ class FileCfg:
             elif shape == 3:
                 self.prefixes = ipgen.nested_cidrs(rng)
                 self.nets = ipgen.same_addr_subnets(rng, self.prefixes) if rng.random() < 0.6 else None
+            elif shape == 4:
+                self.nets = ipgen.nested_cidrs(rng)[:3] + (list(ipgen.SPEC_RFC1918) + ["10.1.0.0/16"] if rng.random() < 0.5 else [])
         if cli_like:
             self.b6 = self.b4 = (8 if self.b4 is None else min(self.b4, 32))
 
@@ -728,6 +730,54 @@ def cli_scope(res, pid, rng, tier):
         elif pid == "C17":
             fails.append(dict(meta, kind="dump file not written"))
     return dis, fails
+
+
+def mask_scope(res, pid, rng, tier):
+    """All 66 mask/wildcard values and all their one-bit perturbations (exhaustive): `_is_mask` and
+    `should_anonymize` against the model, and the text layer against the property itself."""
+    from netconan.ip_anonymization import IpAnonymizer, anonymize_ip_addr
+    fails, dis = [], []
+    vals = sorted(SPEC_MASKS)
+    pert = sorted(set(m ^ (1 << b) for m in vals for b in range(32)) - SPEC_MASKS)
+    nets_sets = [None, ["10.0.0.0/8"], ["255.255.0.0/16", "0.0.0.0/24"], ["128.0.0.0/1"],
+                 ["10.0.0.0/8", "172.16.0.0/12", "192.168.0.0/16", "10.1.0.0/16"],      # nested: inner inside an outer
+                 ipgen.nested_cidrs(rng)]
+    sess = Sess()
+    for ni, nets in enumerate(nets_sets):
+        anon = IpAnonymizer("masksalt%d" % (res.seed % 7), None, None if nets is None else list(nets), preserve_suffix=rng.choice([0, 8]))
+        nspec = [ipaddress.ip_network(n) for n in (nets or [])]
+        nwords = " ".join("%d/%d" % (int(n.network_address), n.prefixlen) for n in nspec)
+        for x in vals + pert:
+            if ni == 0:
+                sess.op("ismask %d" % x, lambda x=x: "ok %d" % (1 if anon._is_mask(x) else 0), {"value": x})
+            sess.op(("shouldanon %d %s" % (x, nwords)).rstrip(), lambda x=x: "ok %d" % (1 if anon.should_anonymize(x) else 0),
+                    {"value": x, "preserve_addresses": nets})
+        around = ipgen.gen_addrs(rng, ipgen.Cfg(4, "s", 0, [], nets, "md5"), 80) if nets else []
+        for x in around:
+            sess.op(("shouldanon %d %s" % (x, nwords)).rstrip(), lambda x=x: "ok %d" % (1 if anon.should_anonymize(x) else 0),
+                    {"value": x, "preserve_addresses": nets})
+        # text layer: masks (and preserved addresses) exactly as written, zero-padded spellings included
+        for x in vals + rng.sample(pert, 150 if tier == "quick" else len(pert)) + around:
+            o = [(x >> 24) & 255, (x >> 16) & 255, (x >> 8) & 255, x & 255]
+            for txt in {".".join(map(str, o)), ".".join("%03d" % q for q in o)}:
+                line = "ip address 1.2.3.4 " + txt + " secondary"
+                out = anonymize_ip_addr(anon, line)
+                tok = out.split(" ")[3] if len(out.split(" ")) == 5 else None
+                res.evaluations += 1
+                keep = x in SPEC_MASKS or any(ipaddress.IPv4Address(x) in n for n in nspec)
+                res.nt(("masktext", x, txt[0] == "0" or ".0" in txt))
+                if keep and tok != txt:
+                    fails.append({"kind": "mask or preserved address not reproduced exactly as written",
+                                  "preserve_addresses": nets, "line": line, "output": out})
+                if not keep and tok == txt and x not in SPEC_MASKS:
+                    # a non-mask value left alone: allowed only if its image is itself (checked by the model side)
+                    pass
+    d = sess.finish()
+    res.evaluations += len(sess.lines)
+    res.exhaustive = True
+    res.count("mask_values", len(vals))
+    res.count("mask_perturbations", len(pert))
+    return dis + d, fails
 
 
 FRESH_SNIPPET = r"""
